@@ -160,6 +160,29 @@ Proof.
         destruct (N.eqb_spec x b) as [->|]; [contradiction|reflexivity].
       * intros x Hx Hp. eapply pc_ok_write with (s := s) (b := b) (v := v); eauto.
         intro Hbx. destruct (Hx b Hbx) as [_ Hno]. apply Hno. assumption.
+    + (* CPushZ b sz: the owner scrubs the block, then starts the push *)
+      destruct (mem_n b hl) eqn:Hm; [|exact I]. cbn [fst].
+      apply mem_n_In in Hm. rewrite ?app_nil_r in *.
+      destruct (Hblk b Hm) as (Hbf & Hbb & Hbt).
+      destruct (remove_n_NoDup b hl Hnd) as [R1 R2].
+      pose proof I as I0. destruct I as [Ich Ind Ig Ib Ifl Ith Idj Ico Icl Icn].
+      eapply (inv_frame c) with (t := t) (l := {| pc := Idle; held := hl |})
+                                (l' := {| pc := PushStart b; held := remove_n b hl |});
+        try eassumption; unfold holds; cbn [head gen nxt count bump thr fl ncas pc held inflight]; rewrite ?app_nil_r; auto.
+      * eapply chain_ext; [|eassumption]. intros x Hx. unfold upd_nxt.
+        destruct (N.eqb_spec x b) as [->|]; [contradiction|reflexivity].
+      * apply NoDup_snoc; assumption.
+      * intros x Hx. rewrite in_app_iff in Hx. cbn in Hx. unfold ProofsInv.blk_ok. cbn [fl bump].
+        destruct Hx as [Hx|[<-|[]]]; [|tauto]. apply remove_n_In in Hx. exact (Hblk x Hx).
+      * intros x Hx Hp. eapply pc_ok_write with (s := s) (b := b) (v := zero_low (nxt s b) sz); eauto.
+        intro Hbx. destruct (Hx b Hbx) as [_ Hno]. apply Hno. assumption.
+      * intros x Hx. rewrite in_app_iff in Hx. cbn in Hx. left.
+        destruct Hx as [Hx|[<-|[]]]; [eapply remove_n_In; eauto|assumption].
+      * intros x Hx. right. rewrite in_app_iff. cbn.
+        destruct (N.eq_dec x b) as [->|Hne]; [tauto|left; apply remove_n_keeps; auto].
+      * pose proof (cnt_upd isPushWon _ _ {| pc := PushStart b; held := remove_n b hl |} _ Hl) as E1.
+        pose proof (cnt_upd isPopWon _ _ {| pc := PushStart b; held := remove_n b hl |} _ Hl) as E2.
+        cbn in E1, E2. eapply count_frame; [exact Icn|assumption|]. left. lia.
   - (* PopStart *)
     rewrite ?app_nil_r in *.
     destruct (N.eqb_spec (head s) (tail c)) as [He|Hne]; cbn [fst].
